@@ -279,6 +279,7 @@ fn cmd_conc(args: &[String]) {
     types::ledger_reset(false);
     let mut failures: Vec<String> = vec![];
     let (mut steps, mut ops, mut keys_checked, mut distinct) = (0usize, 0usize, 0usize, std::collections::HashSet::new());
+    let (mut abs_points, mut abs_reads, mut point_orders) = (0usize, 0usize, 0usize);
     let mut by_class: std::collections::BTreeMap<String, usize> = Default::default();
     let mut sites: std::collections::BTreeSet<String> = Default::default();
     let mut samples = vec![];
@@ -312,6 +313,9 @@ fn cmd_conc(args: &[String]) {
         steps += r.outcome.steps;
         ops += r.calls.len();
         keys_checked += v.keys_checked;
+        abs_points += v.abs_points;
+        abs_reads += v.abs_reads;
+        point_orders += v.point_orders;
         lin_lines.extend(v.lin_lines.iter().cloned());
         if trav_path.is_some() && r.outcome.solo_blocked.is_none() && !r.outcome.deadlock && !r.outcome.budget_exceeded {
             for c in r.calls.iter().filter(|c| matches!(c.op, conc::COp::FrozenIter)) {
@@ -388,7 +392,7 @@ fn cmd_conc(args: &[String]) {
         format!("{{{}}}", m.iter().map(|(k, v)| format!("{}:{}", json_str(k), v)).collect::<Vec<_>>().join(","))
     };
     println!(
-        "{{\"cases\":{},\"steps\":{},\"ops\":{},\"keys_checked\":{},\"distinct_nontrivial\":{},\"failures\":{},\"by_hash_class\":{},\"hook_sites\":{},\"runs_with_lock_contention\":{},\"runs_with_resize\":{},\"runs_ending_with_tree_bin\":{},\"samples\":{}}}",
-        cases, steps, ops, keys_checked, distinct.len(), json_list(&failures), fmt_map(&by_class), sites.len(), contended, with_resize, with_tree, json_list(&samples)
+        "{{\"cases\":{},\"steps\":{},\"ops\":{},\"abs_points_witnessed\":{},\"abs_reads_explained\":{},\"certificates_from_witnessed_points\":{},\"keys_checked\":{},\"distinct_nontrivial\":{},\"failures\":{},\"by_hash_class\":{},\"hook_sites\":{},\"runs_with_lock_contention\":{},\"runs_with_resize\":{},\"runs_ending_with_tree_bin\":{},\"samples\":{}}}",
+        cases, steps, ops, abs_points, abs_reads, point_orders, keys_checked, distinct.len(), json_list(&failures), fmt_map(&by_class), sites.len(), contended, with_resize, with_tree, json_list(&samples)
     );
 }
